@@ -1,10 +1,16 @@
 import SpecKitV.Lemmas.Taps
+import SpecKitV.Props.TapsGen
 import SpecKitV.Lemmas.TimeShiftPaths
 
 #print axioms tap_eq_lagrange
 #print axioms taps_sum_one
 #print axioms taps_reproduce_poly
 #print axioms tap_at_zero
+#print axioms gen_taps_eq_model
+#print axioms gen_taps_eq_lagrange
+#print axioms gen_taps_sum_one
+#print axioms gen_taps_reproduce_poly
+#print axioms gen_tap_at_zero
 #print axioms clampIdx_lt
 #print axioms shiftConst_interior
 #print axioms paths_agree_interior
